@@ -447,6 +447,51 @@ fn run(ctx: &Ctx, rep: &Report) {
         }
         rep.counts(&local);
     }
+    // history: in ONE process and on one thread, an intact package is verified first and damaged copies
+    // of the same package (same recorded digests, same lengths) afterwards, then the intact one again:
+    // what an earlier call found must not decide a later one
+    for (label, base) in flip_bases.iter().take(ctx.tier.pick(3, 12)) {
+        let Ok(p) = walk_package(base) else { continue };
+        let mut seq: Vec<Vec<u8>> = vec![base.clone()];
+        let plen = base.len() - p.payload_start;
+        for k in 0..plen.min(64) {
+            let mut m = base.clone();
+            m[p.payload_start + (k * 37) % plen] ^= 1 << (k % 8);
+            seq.push(m);
+            if k % 16 == 15 {
+                seq.push(base.clone());
+            }
+        }
+        for k in 0..32usize {
+            let mut m = base.clone();
+            let at = p.hdr.start + 16 + (k * 53) % (p.hdr.end - p.hdr.start - 16).max(1);
+            m[at] ^= 1 << (k % 8);
+            seq.push(m);
+        }
+        seq.push(base.clone());
+        for (n, bytes) in seq.iter().enumerate() {
+            rep.eval(1);
+            let (exp, why) = expected(bytes);
+            let value = match crate::util::par::guard(|| judge_c03(bytes)) {
+                Ok(v) => v,
+                Err(_) => continue, // parser panics on damaged headers are C04's
+            };
+            if value["parsed"].as_bool() != Some(true) {
+                continue;
+            }
+            let verdict = value["verdict"].as_str().unwrap_or("?");
+            let bad = match exp {
+                Exp::Ok => verdict != "ok",
+                Exp::Mismatch => verdict != "mismatch",
+                Exp::ErrAny => verdict == "ok",
+                Exp::DontCare => false,
+            };
+            rep.count("history.calls_in_sequence", 1);
+            if bad {
+                rep.violation(format!("history:verdict-{verdict}-expected-{exp:?}"), format!("[{label}, call #{n} of a sequence that starts with the intact package] verify_digests() = {verdict}, expected {exp:?} ({why})"), json!({"label": label, "expected": format!("{exp:?}"), "reason": why, "input_hex": hex::encode(bytes), "history": "intact package verified first in the same process"}), bytes.len() as u64);
+            }
+        }
+    }
     for i in [0usize, inputs.len() / 5, inputs.len() - 1] {
         let (l, b) = &inputs[i];
         rep.sample(json!({"label": l, "len": b.len(), "expected": format!("{:?}", expected(b)), "head_hex": crate::util::hex_trunc(b, 120)}));
